@@ -39,7 +39,8 @@ def _kw(c, th):
 @contract("C07", "grid_equals_points", [SI + "calc_holo", IF + "ImageFormation._transform_to_desired_coordinates",
                                         IF + "ImageFormation._pack_field_into_xarray", MD + "flat", MD + "from_flat", SI + "finalize",
                                         MD + "detector_grid", MD + "detector_points", MD + "make_coords"],
-          bounded="2x3 grid with anisotropic symbolic spacing vs the same 6 locations as a point list", timeout_ms=60000)
+          bounded="2x3 grid with anisotropic symbolic spacing (three axis orders) vs the same 6 locations as a point list", timeout_ms=60000,
+          max_paths=40)
 def grid_equals_points(c):
     """the value computed at a detector location is the same whether the location is part of a regular grid (anisotropic spacing)
     or given in an explicit list of points (in any order)"""
@@ -48,6 +49,8 @@ def grid_equals_points(c):
     th = AbstractPointTheory()
     kw = _kw(c, th)
     grid = detector_grid((2, 3), (sx, sy))
+    layout = c.choice("grid_layout", [('z', 'x', 'y'), ('z', 'y', 'x'), ('x', 'y', 'z')])
+    grid = grid.transpose(*layout)           # the same pixels, stored in another axis order
     hg = c.call(calc_holo, grid, sph, **kw)
     A = (lambda v: np.array(v, dtype=object if c.symbolic else float))
     order = c.choice("point_order", ["row-major", "reversed"])
@@ -126,13 +129,15 @@ def make_subset(c):
     c.ensures("no-count-returns-input", c.call(make_subset_data, im) is im)
     sel = c.choice("selection", [(0,), (5,), (1, 4), (4, 1), (0, 2, 5), (3, 1, 2)])
     rnd = _ScriptedChoice(sel)
+    seed = c.choice("seed", [17, 0, None])
     saved = md.np
     md.np = _NpWithRandom(rnd)
     try:
-        sub, idx = c.call(make_subset_data, im, pixels=len(sel), return_selection=True, seed=17)
+        sub, idx = c.call(make_subset_data, im, pixels=len(sel), return_selection=True, seed=seed)
     finally:
         md.np = saved
-    c.ensures("draws-without-replacement-from-all-pixels", rnd.calls == [(6, len(sel), False)] and rnd.seeds == [17])
+    c.ensures("draws-without-replacement-from-all-pixels", rnd.calls == [(6, len(sel), False)])
+    c.ensures("generator-seeded-with-the-given-seed", rnd.seeds == ([] if seed is None else [seed]))
     c.ensures("selection-returned", list(idx) == list(sel))
     fl = im.stack(flat=('x', 'y', 'z'))
     for k, f in enumerate(sel):
